@@ -95,7 +95,7 @@ func ChainGrammar(n int) *Grammar {
 	return g
 }
 
-// SR4: Value = List | Atom .  List = "(" Value* ")" .  Atom = <ident> .   Three productions that refer to each other
+// SR4: Value = List | Atom .  List = "(" Value* ")" | "begin" "(" Value* ")" .  Atom = <ident> .   Three productions that refer to each other
 // in a cycle, with named Go types, so that a parser can be derived for an inner production
 // (participle.ParserForProduction); only the list and the atom carry positions.
 type SR4 struct {
@@ -105,7 +105,7 @@ type SR4 struct {
 
 type SR4L struct {
 	Pos lexer.Position
-	F0  []*SR4 `"(" (@@)* ")"`
+	F0  []*SR4 `"(" (@@)* ")" | "begin" "(" (@@)* ")"`
 }
 
 type SR4A struct {
@@ -118,7 +118,9 @@ type SR4A struct {
 func sr4() *Grammar {
 	return &Grammar{Static: "SR4", Lookahead: 1, Elide: []string{"WS"}, Unions: []Union{{Members: []int{0}, Ptr: []bool{false}}}, Prods: []*Prod{
 		{PosStyle: 3, Fields: []Field{fld(FSub, 1), fld(FSub, 2)}, Expr: Alt(subAt(1, 0), subAt(2, 1))},
-		{PosStyle: 6, Fields: []Field{fld(FSubs, 0)}, Expr: Seq(Lit("("), Group("*", subAt(0, 0)), Lit(")"))},
+		{PosStyle: 6, Fields: []Field{fld(FSubs, 0)}, Expr: Alt(
+			Seq(Lit("("), Group("*", subAt(0, 0)), Lit(")")),
+			Seq(Lit("begin"), Lit("("), Group("*", subAt(0, 0)), Lit(")")))},
 		{PosStyle: 0, Fields: []Field{fld(FStr, -1)}, Expr: capAt(Ref("Ident"), 0)},
 	}}
 }
